@@ -9,6 +9,7 @@ import enum
 import inspect
 import logging
 import re
+import types
 from abc import ABCMeta, abstractmethod
 from typing import (
     Any,
@@ -132,6 +133,13 @@ def get_imports_for_annotation(anno: Any) -> ImportMap:
     if hasattr(anno, "__supertype__"):
         # a typing.NewType is rendered by its name, which has to come from somewhere
         imports[anno.__module__].add(anno.__name__)
+        return imports
+    if isinstance(anno, getattr(types, "UnionType", ())):
+        # `X | Y` (PEP 604) in the source: rendered as written - or, for a parameter
+        # that defaults to None, as Optional[Union[X, Y]]
+        imports["typing"].add("Union")
+        for elem_type in anno.__args__:
+            imports.merge(get_imports_for_annotation(elem_type))
         return imports
     if (
         anno is inspect.Parameter.empty
